@@ -199,7 +199,32 @@ def explore(ctx, rng, count):
             simple = False
             ctx.count("unless-sugar")
         n = rng.randint(1, 10)
+        bare_case = False
+        if monitor == "offd" and text is None and rng.random() < 0.3:
+            # a variable used directly as a formula (its robustness is its value: the model reads it as `x >= 0`) under a bounded
+            # future operator on a trace shorter than the bound, and read again by another operator
+            x = ("v", rng.choice(VARS[:2]))
+            px = ("b", "ge", x, ("c", 0.0))
+            a_ = rng.randint(0, 2)
+            b_ = a_ + rng.randint(1, 4)
+            first = ("tb1", rng.choice(["alw", "ev"]), a_, b_, px)
+            a2 = rng.randint(0, 2)
+            second = rng.choice([("tb1", rng.choice(["alw", "ev"]), a2, a2 + rng.randint(0, 3), px), ("t1", rng.choice(["ev", "alw", "once"]), px), px])
+            f = ("b", rng.choice(["and", "or"]), first, second) if rng.random() < 0.7 else ("b", rng.choice(["and", "or"]), second, first)
+
+            def bare(g_):
+                if g_ == px:
+                    return x
+                return F.rebuild(g_, [bare(c_) for c_ in F.children(g_)])
+            text = "out = " + F.to_text(bare(f))
+            simple = False
+            n = rng.randint(1, max(1, b_))
+            ctx.count("bare-variable")
+            bare_case = True
         data = F.gen_trace(rng, F.variables(f) or ["a"], n)
+        if bare_case and rng.random() < 0.6:
+            sg = rng.choice([-1.0, 1.0])
+            data = {v: [sg * (abs(y) if y != 0 else 1.0) for y in ys] for v, ys in data.items()}
         if disc.known_region(ctx, {"monitor": monitor, "f": f}, REGIONS):
             ctx.skipped_known += 1
             continue
